@@ -251,7 +251,7 @@ def print_assumptions(module, names, workdir):
             axs = []
             for line in body.split('\n'):
                 m = re.match(r'^([A-Za-z_][A-Za-z0-9_.\']*)\s*:', line)
-                if m:
+                if m and m.group(1) not in ('Axioms', 'Opaque', 'Transparent', 'Section'):
                     axs.append(m.group(1))
             res[name] = axs
     for ext in ('.v', '.vo', '.vok', '.vos', '.glob'):
